@@ -14,8 +14,16 @@ LINK_VEC = {0: (1, 0), 1: (1, 1), 2: (0, 1), 3: (-1, 0), 4: (-1, -1),
 _user_resources = {}
 
 
+# While a case runs with identifiers of its own for the standard resources
+# (the wrappers' core_resource= / sdram_resource= / sram_resource= options)
+# this maps "Cores" / "SDRAM" / "SRAM" to those identifiers.
+_alias = {}
+
+
 def resource(name):
     """Map a resource name of a case to the object rig sees."""
+    if name in _alias:
+        return _alias[name]
     from rig.place_and_route import Cores, SDRAM, SRAM
     std = {"Cores": Cores, "SDRAM": SDRAM, "SRAM": SRAM}
     if name in std:
@@ -27,6 +35,9 @@ def resource(name):
 
 
 def resource_name(obj):
+    for n, o in _alias.items():
+        if obj is o or obj == o:
+            return n
     from rig.place_and_route import Cores, SDRAM, SRAM
     for n, o in (("Cores", Cores), ("SDRAM", SDRAM), ("SRAM", SRAM)):
         if obj is o:
